@@ -24,7 +24,7 @@ T = {
  "C15": ("E-SEQ", "model_checking", SEQ + "; the clock is a harness-owned MockClock", "k=3 (4) timer futures, deadlines from a 3-value set incl. duplicates, delay 0/1/MAX, clock span 4; the 'randomized long histories' clause is replaced by the exhaustive heap exploration of C20 and by scripted histories with up to 65538 timers (sampling is outside this family); delay(d) is swept over every whole millisecond up to 20 s, sub-millisecond remainders and the neighbourhood of every power of two up to 2^70 ms", "explicit-state BFS over the real implementation to a fixpoint; sorted-multiset monitor"),
  "C16": ("E-TYPE", "other", TYPE, "one witness per (Send,Sync) class of each parameter; verdict cells are those of the NoopLock and parking_lot lock witnesses; rustc's trait solver and the rule table are trusted", "exhaustive enumeration of a finite type-configuration matrix (compile-time trait facts) with rule-table oracle"),
  "C17": ("E-SEQ", "model_checking", SEQ + ". is_terminated() is compared with the harness slot state for every live future after every operation of every system; poll-after-completion is explored as an explicit operation and must panic; stream items go through the same FIFO monitor as receives", "all systems of C01-C15", "explicit-state BFS over the real implementation to a fixpoint (piggy-backed on every system)"),
- "C18": ("E-SEQ", "model_checking", SEQ + ". A counting global allocator is armed only inside library calls; every transition of every system must show zero allocations and frees (GrowingHeapBuf: push paths may allocate)", "the harness keeps an uncounted reference to shared state, so the final deallocation (destruction, exempt) never happens inside a counted call; wakers and payloads are non-allocating by construction", "explicit-state BFS over the real implementation with a counting allocator armed around every library call"),
+ "C18": ("E-SEQ", "model_checking", SEQ + ". A counting global allocator is armed only inside library calls; every transition of every system must show zero allocations and frees (GrowingHeapBuf: push paths may allocate)", "the harness' references to shared state are non-owning (Weak); frees in the step that drops the last owner of shared state are destruction and exempt; wakers and payloads are non-allocating by construction; under threads the same is checked by loom scenarios with an allocator that is armed only inside library calls", "explicit-state BFS over the real implementation with a counting allocator armed around every library call"),
  "C19": ("E-DS", "model_checking", DS, "capacities 0..4, all push/pop sequences up to length 12 (quick) / 16 (thorough), drop-counting elements, buffer dropped at the end of every sequence; the same with a zero-sized drop-counting element and with user RealArray types that carry an alignment attribute or a trailing field; scripted fill/rotate/drain cycles for capacities 63, 64, 70, 96 (user newtype), 128 and 65536", "exhaustive sequence enumeration against a VecDeque reference"),
  "C20": ("E-DS", "model_checking", DS, "list: 5 (7) nodes; heap: 5 nodes x all 243 key vectors over {0,1,2} (thorough: 6 nodes x 729 vectors, 7 nodes for four key vectors); scripted heaps of 1000 and 65538 nodes (ascending / descending / equal / zig-zag keys) on a 256 KiB stack", "exhaustive sequence enumeration to a fixpoint over structure shapes; structural validator + reference model"),
 }
